@@ -136,6 +136,13 @@ func propDecisionTable(c *Case) {
 	}
 
 	callerTTL := []time.Duration{0, time.Hour, 10 * time.Minute}[c.Pick("callerTTL", 3)]
+
+	// alternative preparation of stale entries: UnlimitedTTL backend + ExpireAll
+	viaExpireAll := (cl.state == ksStaleRecent || cl.state == ksStaleOld) && c.Weighted("stale-via-expireall", 3, 1) == 1
+	if viaExpireAll {
+		cfg.backendTTL = cache.UnlimitedTTL
+		c.Class("stale-via-ExpireAll-on-unlimited-backend")
+	}
 	key := append([]byte{}, baseKeys[c.Pick("key", len(baseKeys))]...)
 	sc := &scenario{cfg: cfg, nkeys: 1, states: []int{cl.state}, ages: []time.Duration{age}, prefail: []bool{false}}
 
@@ -159,14 +166,22 @@ func propDecisionTable(c *Case) {
 			c.Class("cached-value-is-nil")
 		}
 
-		switch cl.state {
-		case ksFresh:
+		switch {
+		case cl.state == ksFresh:
 			_ = w.be.Write(ttlCtx(span+24*time.Hour), key, staleVal)
-		case ksStaleRecent, ksStaleOld:
+			time.Sleep(span)
+		case (cl.state == ksStaleRecent || cl.state == ksStaleOld) && viaExpireAll:
+			// a never-expiring entry of an UnlimitedTTL backend, expired through ExpireAll
+			_ = w.be.Write(bg, key, staleVal)
+			time.Sleep(time.Second)
+			w.be.ExpireAll(bg)
+			time.Sleep(age)
+		case cl.state == ksStaleRecent || cl.state == ksStaleOld:
 			_ = w.be.Write(ttlCtx(span-age), key, staleVal)
+			time.Sleep(span)
+		default:
+			time.Sleep(span)
 		}
-
-		time.Sleep(span)
 		w.attach()
 
 		_ = sc
@@ -256,6 +271,8 @@ func propDecisionTable(c *Case) {
 			finalTTL = time.Hour
 		}
 
+		neverExpires := callerTTL == 0 && cfg.backendTTL == cache.UnlimitedTTL
+
 		sig := func(what string) string { return what + ":" + ksNames[cl.state] }
 
 		switch {
@@ -286,6 +303,9 @@ func propDecisionTable(c *Case) {
 			if cl.builderOK == 1 {
 				c.Assert(isNew(), sig("sync-build-result"), "%s entry + successful build: got (%v, %v), want the new value (never the too-stale one)", ksNames[cl.state], res, resErr)
 				want = post{true, newTok, t0.Add(finalTTL).UnixNano()}
+				if neverExpires {
+					want.e = 0
+				}
 			} else {
 				if cl.state == ksStaleOld && !failHard {
 					c.Assert(isStale(), sig("failed-update-serves-stale"), "too-old stale + failed build + !FailHard: got (%v, %v), want the stale value (README: served regardless of MaxStaleness)", res, resErr)
@@ -319,6 +339,9 @@ func propDecisionTable(c *Case) {
 
 			if cl.builderOK == 1 {
 				want = post{true, newTok, t0.Add(finalTTL).UnixNano()}
+				if neverExpires {
+					want.e = 0
+				}
 			} else {
 				want = post{true, stale, t0.Add(cfg.effUpdateTTL()).UnixNano()}
 			}
